@@ -22,6 +22,7 @@ import (
 	conformancev1 "connectrpc.com/conformance/internal/gen/proto/go/connectrpc/conformance/v1"
 	"connectrpc.com/conformance/internal/verif/rep"
 	"google.golang.org/protobuf/encoding/protojson"
+	"google.golang.org/protobuf/encoding/protowire"
 	"google.golang.org/protobuf/proto"
 	"google.golang.org/protobuf/reflect/protoreflect"
 	"google.golang.org/protobuf/types/known/anypb"
@@ -31,7 +32,7 @@ import (
 type c19Case struct {
 	Via     string `json:"via"`     // "direct" (expandRequestData) or "suite" (parseTestSuites + newTestCaseLibrary)
 	Type    string `json:"type"`    // request message type
-	Content string `json:"content"` // what the message holds before expansion
+	Content string `json:"content"` // what the message holds before expansion ('+'-joined: respdef, dataN, unktail / unkfront / unknested / unkdeep - see c19UnknownContents)
 	Pos     int    `json:"pos"`     // index of the expanded message in the request stream (0 or 1)
 	Delta   int64  `json:"delta"`   // size_relative_to_limit
 	// multi-directive cases (Type = ClientStreamRequest | BidiStreamRequest): one
@@ -87,7 +88,8 @@ func c19SuiteVariants() []string {
 var c19SlotAlphabet = []string{"U", "P0", "P+1", "P-1", "E0", "E+1", "E-1", "X0"} //nolint:gochecknoglobals
 
 // c19SlotContents: the content of the message in stream position i before any padding.
-var c19SlotContents = []string{"respdef+data127", "empty", "data1"} //nolint:gochecknoglobals
+// (the third message also carries fields that the request types of this build do not define)
+var c19SlotContents = []string{"respdef+data127", "empty", "data1+unktail"} //nolint:gochecknoglobals
 
 type c19SlotSpec struct {
 	marked bool
@@ -152,10 +154,7 @@ func c19MultiTestCase(tc c19Case) (*conformancev1.TestCase, []c19SlotSpec) {
 	}
 	for i, slot := range tc.Slots {
 		specs[i] = c19SlotBuild(tc.Type, i, slot)
-		asAny, err := anypb.New(specs[i].msg)
-		if err != nil {
-			panic(err)
-		}
+		asAny := c19Any(c19SlotContents[i], specs[i].msg)
 		testCase.Request.RequestMessages = append(testCase.Request.RequestMessages, asAny)
 		if i >= entries {
 			continue
@@ -252,6 +251,10 @@ func c19JudgeMulti(r *rep.Report, tc c19Case, verbose bool) string {
 			r.Violate("padding-changed-other-field", describe(fmt.Sprintf("request #%d: a field other than request_data differs after expansion", i+1)), tc)
 			bad = true
 		}
+		if diff := c19WireDiff(sp.msg, before.Request.RequestMessages[i].Value, gotAny.Value); diff != "" {
+			r.Violate("expanded-differs-beyond-padding-field", describe(fmt.Sprintf("request #%d: %s", i+1, diff)), tc)
+			bad = true
+		}
 		existing := c19GetData(sp.msg)
 		if target >= int64(proto.Size(sp.msg)) && !bytes.HasPrefix(gotData, existing) {
 			r.Violate("padding-changed-existing-data", describe(fmt.Sprintf("request #%d: existing request_data is not a prefix of the padded request_data", i+1)), tc)
@@ -279,6 +282,128 @@ var c19Types = []string{ //nolint:gochecknoglobals
 
 var c19Contents = []string{ //nolint:gochecknoglobals
 	"empty", "respdef", "data0", "data1", "data127", "data128", "respdef+data127", "respdef+data128",
+}
+
+// c19UnknownContents: request messages that carry fields the request types compiled
+// into the runner do not define (a suite written against a newer schema, or a
+// deliberately odd message: the strict codec of this repository exists because
+// such fields matter). The Go runtime keeps them and the reference client sends
+// them on, so "changing nothing but the padding field" covers them too.
+//
+//	unktail    unknown fields (varint, bytes, fixed32, fixed64; one- and two-byte tags) after the known ones
+//	unkfront   the same fields, but on the wire in FRONT of the known ones (hand-assembled Any value)
+//	unknested  unknown fields inside response_definition
+//	unkdeep    unknown field inside response_definition.response_headers[0] (resp. the trailers / headers of the stream definition)
+var c19UnknownContents = []string{ //nolint:gochecknoglobals
+	"unktail", "data1+unkfront", "respdef+unknested", "respdef+data127+unktail", "respdef+data128+unkdeep+unkfront", "respdef+unknested+unkdeep+unktail",
+}
+
+// c19UnknownFields: wire bytes of fields that no request / definition / header type has.
+func c19UnknownFields(where string) []byte {
+	var raw []byte
+	switch where {
+	case "top":
+		raw = protowire.AppendTag(raw, 15, protowire.VarintType)
+		raw = protowire.AppendVarint(raw, 300)
+		raw = protowire.AppendTag(raw, 100, protowire.BytesType)
+		raw = protowire.AppendBytes(raw, []byte("from-a-newer-schema"))
+		raw = protowire.AppendTag(raw, 101, protowire.Fixed32Type)
+		raw = protowire.AppendFixed32(raw, 0xC19C19)
+		raw = protowire.AppendTag(raw, 7, protowire.Fixed64Type)
+		raw = protowire.AppendFixed64(raw, 0x0102030405060708)
+		raw = protowire.AppendTag(raw, 100, protowire.BytesType) // the same number twice: both occurrences count
+		raw = protowire.AppendBytes(raw, nil)
+	case "nested":
+		raw = protowire.AppendTag(raw, 100, protowire.BytesType)
+		raw = protowire.AppendBytes(raw, []byte("nested-unknown"))
+		raw = protowire.AppendTag(raw, 99, protowire.VarintType)
+		raw = protowire.AppendVarint(raw, 1)
+	case "deep":
+		raw = protowire.AppendTag(raw, 9, protowire.BytesType)
+		raw = protowire.AppendBytes(raw, []byte("deep"))
+	}
+	return raw
+}
+
+// c19Any wraps msg for the test case. Normally anypb.New; for "unkfront" contents
+// the value is assembled by hand so that the unknown fields precede the known ones
+// on the wire (msg itself - the model of what the Any holds - carries them as
+// unknown fields either way).
+func c19Any(content string, msg proto.Message) *anypb.Any {
+	if !strings.Contains(content, "unkfront") {
+		asAny, err := anypb.New(msg)
+		if err != nil {
+			panic(err)
+		}
+		return asAny
+	}
+	known := proto.Clone(msg)
+	front := append([]byte(nil), known.ProtoReflect().GetUnknown()...)
+	known.ProtoReflect().SetUnknown(nil)
+	rest, err := proto.Marshal(known)
+	if err != nil {
+		panic(err)
+	}
+	value := append(front, rest...)
+	check := msg.ProtoReflect().New().Interface()
+	if err := proto.Unmarshal(value, check); err != nil || !proto.Equal(check, msg) || len(value) != proto.Size(msg) {
+		panic(fmt.Sprintf("c19 harness: hand-assembled message does not decode to the model (%v)", err))
+	}
+	return &anypb.Any{TypeUrl: "type.googleapis.com/" + string(msg.ProtoReflect().Descriptor().FullName()), Value: value}
+}
+
+// c19WireFields splits a serialized message into its top-level fields (number,
+// wire type and raw value bytes), leaving out every occurrence of field `skip`;
+// sorted, because the order of fields on the wire carries no meaning.
+func c19WireFields(wire []byte, skip protowire.Number) ([]string, error) {
+	var out []string
+	for len(wire) > 0 {
+		num, typ, n := protowire.ConsumeTag(wire)
+		if n < 0 {
+			return nil, protowire.ParseError(n)
+		}
+		m := protowire.ConsumeFieldValue(num, typ, wire[n:])
+		if m < 0 {
+			return nil, protowire.ParseError(m)
+		}
+		if num != skip {
+			out = append(out, fmt.Sprintf("%09d/%d:%x", num, typ, wire[n:n+m]))
+		}
+		wire = wire[n+m:]
+	}
+	sort.Strings(out)
+	return out, nil
+}
+
+// c19WireDiff is the oracle for "changing nothing but the padding field" on the
+// level of the bytes that are sent: with the padding field (request_data) taken
+// out, the expanded message and the original one consist of the same fields -
+// known to this build or not. "" = no difference.
+func c19WireDiff(model proto.Message, before, after []byte) string {
+	skip := c19DataField(model).Number()
+	want, err := c19WireFields(before, skip)
+	if err != nil {
+		panic(fmt.Sprintf("c19 harness: original message is malformed: %v", err))
+	}
+	got, err := c19WireFields(after, skip)
+	if err != nil {
+		return "the expanded message is not well-formed protobuf: " + err.Error()
+	}
+	if strings.Join(got, " ") == strings.Join(want, " ") {
+		return ""
+	}
+	short := func(fields []string) string {
+		var parts []string
+		for _, f := range fields {
+			if len(f) > 60 {
+				f = f[:60] + "..."
+			}
+			parts = append(parts, strings.TrimLeft(f, "0"))
+		}
+		return "[" + strings.Join(parts, " ") + "]"
+	}
+	return fmt.Sprintf("apart from the padding field (#%d) the message had the fields (number/wiretype:value) %s before expansion and has %s after it",
+		skip, short(want), short(got))
 }
 
 // ---------------------------------------------------------------------------
@@ -364,6 +489,25 @@ func c19Build(typ, content string) proto.Message {
 		}
 		c19SetData(msg, c19ExistingData(n))
 	}
+	if strings.Contains(content, "unktail") || strings.Contains(content, "unkfront") {
+		msg.ProtoReflect().SetUnknown(c19UnknownFields("top"))
+	}
+	if strings.Contains(content, "unknested") || strings.Contains(content, "unkdeep") {
+		if !withDef {
+			panic("c19: nested unknown fields need a response definition: " + content)
+		}
+		var def proto.Message = unaryDef
+		hdr := unaryDef.ResponseHeaders[0]
+		if typ == "ServerStreamRequest" || typ == "BidiStreamRequest" {
+			def, hdr = streamDef, streamDef.ResponseTrailers[0]
+		}
+		if strings.Contains(content, "unknested") {
+			def.ProtoReflect().SetUnknown(c19UnknownFields("nested"))
+		}
+		if strings.Contains(content, "unkdeep") {
+			hdr.ProtoReflect().SetUnknown(c19UnknownFields("deep"))
+		}
+	}
 	return msg
 }
 
@@ -406,10 +550,7 @@ func c19StreamType(typ string, msg proto.Message) conformancev1.StreamType {
 // carries no directive value (must not be touched).
 func c19TestCase(tc c19Case) (*conformancev1.TestCase, proto.Message) {
 	msg := c19Build(tc.Type, tc.Content)
-	asAny, err := anypb.New(msg)
-	if err != nil {
-		panic(err)
-	}
+	asAny := c19Any(tc.Content, msg)
 	delta := int32(tc.Delta)
 	testCase := &conformancev1.TestCase{
 		Request: &conformancev1.ClientCompatRequest{
@@ -655,6 +796,10 @@ func c19Judge(r *rep.Report, tc c19Case, verbose bool) string {
 			describe("a field other than request_data differs after expansion"), tc)
 		bad = true
 	}
+	if diff := c19WireDiff(orig, before.Request.RequestMessages[tc.Pos].Value, after.Request.RequestMessages[tc.Pos].Value); diff != "" {
+		r.Violate(pfx+"expanded-differs-beyond-padding-field", describe(diff), tc)
+		bad = true
+	}
 	if tc.Via == "direct" {
 		// everything else in the test case stays as it was
 		expanded := after.Request.RequestMessages[tc.Pos]
@@ -836,12 +981,38 @@ func c19EnumerateSuiteVariants(visit func(tc c19Case) bool) bool {
 	return true
 }
 
+// c19EnumerateUnknown: messages with fields unknown to this build (c19UnknownContents),
+// expandRequestData directly (a suite file cannot express such a message: the
+// loader rejects unknown fields), every request type, both stream positions, the
+// offset windows of c19Deltas without the sweep of all small targets.
+func c19EnumerateUnknown(thorough bool, visit func(tc c19Case) bool) bool {
+	for _, typ := range c19Types {
+		for _, content := range c19UnknownContents {
+			positions := []int{0}
+			if typ == "ClientStreamRequest" || typ == "BidiStreamRequest" {
+				positions = []int{0, 1}
+			}
+			for _, pos := range positions {
+				for _, delta := range c19Deltas(typ, content, thorough, true) {
+					if !visit(c19Case{Via: "direct", Type: typ, Content: content, Pos: pos, Delta: delta}) {
+						return false
+					}
+				}
+			}
+		}
+	}
+	return true
+}
+
 func c19Enumerate(thorough bool, visit func(tc c19Case) bool) {
 	// multi-directive cases first: few, and independent of the offset sweeps
 	if !c19EnumerateMulti(visit) {
 		return
 	}
 	if !c19EnumerateSuiteVariants(visit) {
+		return
+	}
+	if !c19EnumerateUnknown(thorough, visit) {
 		return
 	}
 	for _, via := range []string{"direct", "suite"} {
@@ -878,7 +1049,10 @@ func TestVerifC19Expand(t *testing.T) {
 		"round target 0, {-limit-1, -limit, MinInt32, MaxInt32} and a complete sweep of all targets 0..700 (quick) / 0..17500 (thorough); plus multi-directive cases: " +
 		"client-stream / bidi streams of 2 and 3 requests with every assignment of {unmarked, marked and needing padding with offset 0/+1/-1, marked and already exactly limit+offset long, " +
 		"marked and one byte too long} to the requests (8^2+8^3 per type; streams of 2 also through the suite path; shorter expand_requests list where the stream ends unmarked), every marked request judged on its own; " +
-		"plus the suite path under every other combination of suite-level directives (relies_on_message_receive_limit set / not set x mode server / client / unspecified x {-, relies_on_tls, +client certs, relies_on_connect_get, connect_version_mode require / ignore, relevant protocols / HTTP versions / compressions left empty}: 53 combinations) x 5 types x 2 contents x offsets {0, +1, -1, -1000, first unreachable size, -limit-1}; every case is a distinct " +
+		"plus the suite path under every other combination of suite-level directives (relies_on_message_receive_limit set / not set x mode server / client / unspecified x {-, relies_on_tls, +client certs, relies_on_connect_get, connect_version_mode require / ignore, relevant protocols / HTTP versions / compressions left empty}: 53 combinations) x 5 types x 2 contents x offsets {0, +1, -1, -1000, first unreachable size, -limit-1}; " +
+		"plus request messages carrying fields UNKNOWN to the request types of this build (6 contents: appended to / on the wire in front of the known fields, inside response_definition, inside a header of the definition, combinations; " +
+		"the third message of the multi-directive streams too) x 5 types x position x the offset windows, expandRequestData directly: besides the exact size, the expanded message minus the padding field must consist of the same " +
+		"top-level wire fields as the original (compared as (number, wire type, value bytes) sets) and be proto.Equal to it including unknown fields at every depth; every case is a distinct " +
 		"tuple; non-trivial = the target differs from the unpadded size (something has to be decided: pad, shrink or reject)"
 
 	if data := rep.ReplayInput(); data != nil {
